@@ -46,6 +46,11 @@ func (r *RingBuffer) Close() {
 		r.buffer[i] = nil
 	}
 
+	// keep indexes consistent with the emptied buffer, otherwise data pushed
+	// while the reader is still running is pulled in the wrong order
+	r.writeIndex = 0
+	r.readIndex = 0
+
 	r.mutex.Unlock()
 	r.cond.Broadcast()
 }
